@@ -3,10 +3,12 @@ package httpsim
 import (
 	"encoding/json"
 	"fmt"
+	"go4.org/jsonconfig"
 	"io"
 	"net/http"
 	"os"
 	"path/filepath"
+	"strings"
 
 	"perkeep.org/pkg/serverinit"
 
@@ -76,7 +78,9 @@ func highLevelJSON(cfg ServerCfg, dir string) ([]byte, error) {
 	}
 	blobs := filepath.Join(dir, "blobs")
 	switch cfg.Storage {
-	case "memory":
+	case "memory", "sim":
+		// ("sim": the memory storage handler is replaced in the low-level
+		// configuration, see StartServer)
 		m["memoryStorage"] = true
 	case "localdisk":
 		m["blobPath"] = blobs
@@ -89,7 +93,7 @@ func highLevelJSON(cfg ServerCfg, dir string) ([]byte, error) {
 	default:
 		return nil, fmt.Errorf("unknown storage %q", cfg.Storage)
 	}
-	if cfg.Storage != "memory" {
+	if cfg.Storage != "memory" && cfg.Storage != "sim" {
 		// serverinit creates these itself unless an earlier memoryStorage
 		// configuration of the same process switched that off (package-level
 		// noMkdir): create them here so that runs are independent
@@ -124,6 +128,31 @@ func highLevelJSON(cfg ServerCfg, dir string) ([]byte, error) {
 	return json.MarshalIndent(m, "", "  ")
 }
 
+// stripInternal drops jsonconfig's bookkeeping keys ("_knownkeys") from a
+// configuration tree that is to be parsed again.
+func stripInternal(v any) any {
+	switch x := v.(type) {
+	case map[string]any:
+		out := map[string]any{}
+		for k, e := range x {
+			if strings.HasPrefix(k, "_") {
+				continue
+			}
+			out[k] = stripInternal(e)
+		}
+		return out
+	case jsonconfig.Obj:
+		return stripInternal(map[string]any(x))
+	case []any:
+		out := make([]any, len(x))
+		for i, e := range x {
+			out[i] = stripInternal(e)
+		}
+		return out
+	}
+	return v
+}
+
 // Server is one configured perkeep server reachable through SimTransports.
 type Server struct {
 	Cfg      ServerCfg
@@ -148,6 +177,30 @@ func StartServer(cfg ServerCfg, dir string) (*Server, error) {
 	c, err := serverinit.Load(conf)
 	if err != nil {
 		return nil, fmt.Errorf("serverinit.Load: %w", err)
+	}
+	if cfg.Storage == "sim" {
+		// the generated low-level configuration, with the blob storage
+		// handler swapped for the simulated store "bs"
+		low := c.LowLevelJSONConfig()
+		prefixes, _ := low["prefixes"].(map[string]any)
+		swapped := false
+		for k, v := range prefixes {
+			h, _ := v.(map[string]any)
+			if k == "/bs/" && h != nil && h["handler"] == "storage-memory" {
+				prefixes[k] = map[string]any{"handler": "storage-verifsim", "handlerArgs": map[string]any{"name": "bs"}}
+				swapped = true
+			}
+		}
+		if !swapped {
+			return nil, fmt.Errorf("low-level configuration has no memory storage at /bs/ to replace")
+		}
+		lowJSON, err := json.Marshal(stripInternal(low))
+		if err != nil {
+			return nil, err
+		}
+		if c, err = serverinit.Load(lowJSON); err != nil {
+			return nil, fmt.Errorf("serverinit.Load (low-level, simulated storage): %w", err)
+		}
 	}
 	c.SetKeepGoing(true)
 	mux := http.NewServeMux()
